@@ -22,7 +22,8 @@ ANCHORS = ['numdifftools.finite_difference:HessianDifferenceFunctions._central_e
            'numdifftools.finite_difference:LogHessianRule.apply']
 MIN_COUNTERS = dict(quick={'symmetry_asserted': 1500, 'quadratic_entries_asserted': 3000, 'general_entries_asserted': 3000,
                            'hessdiag_vs_hessian_asserted': 300, 'length_one_output_cases': 150,
-                           'complex_valued_cases': 100, 'scalar_x_cases': 50},
+                           'complex_valued_cases': 100, 'scalar_x_cases': 50, 'integer_x_cases': 100,
+                           'quadratic_raw_quotients_asserted': 20000},
                     thorough={'symmetry_asserted': 60000})
 RULE = ('n in 1..6; f = c + b.x + x\'Qx/2 (quadratic: every second-difference formula is exact on it) and f = exp(a.x) + sin(b.x) + '
         'x\'Qx/2 (analytic Hessian), Q random symmetric with non-zero off-diagonal entries; methods central, central2, forward, '
@@ -42,6 +43,15 @@ DMETHODS = ['central', 'forward', 'backward', 'complex', 'multicomplex']
 def setup(ctx, mon):
     D.setup_monitors(ctx, mon, ANCHORS)
 
+    def on_extrapolate(frame):
+        # the difference quotients (rule applied, nothing extrapolated yet), one row per step
+        loc = frame.f_locals
+        try:
+            D._OBS['raw'] = (np.array(loc['results'], copy=True), np.array(loc['steps'], copy=True), tuple(loc['shape']))
+        except Exception:
+            pass
+    mon.watch('numdifftools.limits:_Limit._extrapolate', on_start=on_extrapolate, lines=False)
+
 
 def cases(rng, tier, shard, nshards):
     for i in range(BUDGET[tier] // nshards):
@@ -54,7 +64,7 @@ def cases(rng, tier, shard, nshards):
         else:
             step = dict(kind='min', opts=dict(base_step=float(10.0 ** rng.uniform(-5, -3)), num_steps=int(rng.integers(5, 10)),
                                               step_ratio=2.0))
-        variant = str(rng.choice(['plain', 'plain', 'plain', 'length1', 'complex_valued', 'scalar_x']))
+        variant = str(rng.choice(['plain', 'plain', 'plain', 'length1', 'complex_valued', 'scalar_x', 'integer_x']))
         if variant == 'complex_valued' and method in ('complex', 'multicomplex'):
             variant = 'plain'
         n = 1 if variant == 'scalar_x' else int(rng.integers(1, 7))
@@ -102,6 +112,29 @@ def run_case(case, ctx):
         ea, sb = math.exp(float(a @ x)), math.sin(float(b @ x))
         exact = (np.outer(a, a) * ea - np.outer(b, b) * sb + Q).astype(complex if cplx else float)
         fscale = math.exp(float(np.sum(np.abs(a) * (np.abs(x) + 1)))) + 1 + float(np.sum(np.abs(Q)) * (np.max(np.abs(x)) + 1) ** 2)
+    if variant == 'integer_x':
+        # x given as Python ints and an integer-coefficient polynomial evaluated in the arithmetic of its argument:
+        # f(x) itself is an integer (numpy int64), the values at the shifted points are not
+        ctx.count('integer_x_cases')
+        x = rng.integers(-3, 4, size=n)
+        P = np.triu(rng.integers(-3, 4, size=(n, n)))
+        P[(P == 0) & (np.triu(np.ones((n, n), dtype=int), 1) == 1)] = 2
+        bi = rng.integers(-3, 4, size=n)
+        ti = rng.integers(-2, 3, size=n) if family != 'quadratic' else np.zeros(n, dtype=int)
+        ci = int(rng.integers(-3, 4))
+
+        def f0(z):
+            s = ci
+            for k in range(n):
+                s = s + int(bi[k]) * z[k] + int(ti[k]) * z[k] * z[k] * z[k]
+            for i in range(n):
+                for j in range(i, n):
+                    s = s + int(P[i, j]) * z[i] * z[j]
+            return s
+        exact = (P + P.T).astype(float)     # diagonal 2 P_ii, off-diagonal P_ij
+        exact[np.diag_indices(n)] += 6.0 * ti * x
+        ax = np.abs(x) + 1.0
+        fscale = abs(ci) + float(np.sum(np.abs(bi) * ax)) + float(np.sum(np.abs(ti) * ax ** 3)) + float(np.sum(np.abs(P))) * float(np.max(ax)) ** 2
     if cplx:
         f = lambda z: (0.5 + 1.0j) * f0(z)
         exact = (0.5 + 1.0j) * exact
@@ -114,7 +147,7 @@ def run_case(case, ctx):
         ctx.count('length_one_output_cases')
     if cplx:
         ctx.count('complex_valued_cases')
-    xin = float(x[0]) if variant == 'scalar_x' else x.copy()
+    xin = float(x[0]) if variant == 'scalar_x' else [int(v) for v in x] if variant == 'integer_x' else x.copy()
     if variant == 'scalar_x':
         ctx.count('scalar_x_cases')
         f_user = (lambda z: f0(np.atleast_1d(z))) if not hasattr(xin, '__len__') else f
@@ -144,6 +177,28 @@ def run_case(case, ctx):
         return
     cancel_free = method in ('complex', 'multicomplex')
     hden = np.maximum(hh, 1.0) if method == 'multicomplex' else hh
+    raw = D._OBS.get('raw')
+    if family == 'quadratic' and raw is not None and raw[2] == (n, n) and method != 'complex':
+        # "exact to rounding for quadratic f", where it is decided: every difference quotient, at every step, before
+        # any extrapolation (a quadratic has no truncation error in any of the formulas). The final value may add the
+        # noise amplification of the Richardson / Wynn stage, which the library reports in its estimate (below).
+        res_k, h_k = raw[0].reshape(raw[0].shape[0], -1), np.abs(raw[1].reshape(raw[1].shape[0], -1))
+        lam_rule = max(D._OBS.get('rule_abs', 1.0), 1.0)
+        hk = np.maximum(h_k, 1.0) if method == 'multicomplex' else h_k
+        with np.errstate(all='ignore'):
+            num = np.abs(res_k - exact.reshape(1, -1))
+            den = 64 * EPS * lam_rule * fscale / hk ** 2
+            ratio = np.where(den > 0, num / np.where(den > 0, den, 1.0), np.where(num == 0, 0.0, np.inf))
+        ctx.count('quadratic_raw_quotients_asserted', int(ratio.size))
+        rmax = float(np.max(ratio)) if ratio.size else 0.0
+        ctx.maximum('raw_quotient_err/bound:quadratic:%s' % method, rmax)
+        if not rmax <= 1:
+            kk, ee = np.unravel_index(int(np.argmax(ratio)), ratio.shape)
+            ctx.reject('difference_quotient_of_quadratic_not_exact', observed=complex(res_k[kk, ee]),
+                       expected=complex(exact.reshape(-1)[ee]), detail=dict(step=float(h_k[kk, ee]), entry=[int(ee // n), int(ee % n)],
+                                                                            ratio=rmax, fscale=fscale),
+                       method=method, family=family, variant=variant, n=n, step_kind=case['step']['kind'])
+            return
     worst, at = 0.0, None
     for i in range(n):
         for j in range(n):
@@ -151,7 +206,7 @@ def run_case(case, ctx):
             hij = float(hden[i, j]) ** 2
             floor = EPS * lamH * fscale / hij
             if family == 'quadratic':
-                bound = 64 * floor + (0.0 if method != 'complex' else 300 * est[i, j])
+                bound = 64 * floor + (10 if method != 'complex' else 300) * est[i, j]
                 ctx.count('quadratic_entries_asserted')
             else:
                 bound = 300 * est[i, j] + 10 * floor
